@@ -800,6 +800,28 @@ class Item:
         self.rewrite(s0, bs, "let mut %s: usize = 0;/*@pre*/\n    while %s < %s.len()\n    /*@loop*/\n    {\n      let %s = &%s[%s];/*@body*/\n      let vx_e = " % (iv, iv, recv, p, recv, iv), "R3-extend-filter-map")
         self.rewrite(be, semi + 1, ";\n      if let Some(vx_p) = vx_e { %s.push(vx_p); }/*@tail*/\n      %s = %s + 1;\n    }" % (var, iv, iv), "R3-extend-filter-map")
 
+    def r3_retain_stmt(self, fn, k):
+        """statement `V.retain(|P| BODY);` (BODY without `return` / `?`)  ==>  the definition of Vec::retain:
+        { let mut vx_it = vx_into_iter(vx_take_vec(&mut V)); loop { let Some(vx_x) = vx_it.next() else { break; };
+          let vx_keep = { let P = &vx_x; BODY }; if vx_keep { V.push(vx_x); } } }
+        (vx_take_vec = std::mem::take, trusted shim; BODY -- the predicate -- stays in place)"""
+        k0, _, bo, end, _ = self.fn_span(fn)
+        hits = list(re.finditer(r"\.\s*retain\s*\(", self.m[bo:end]))
+        if len(hits) < k:
+            raise Undecided("LOST-ANCHOR: R3 retain-stmt #%d in fn %s of %s" % (k, fn, self.where()))
+        h = hits[k - 1]
+        par = bo + h.end() - 1
+        p_, bs, be, close = self._closure_after(par)
+        if re.search(r"\breturn\b|\?", self.m[bs:be]):
+            raise Undecided("R3 retain-stmt: the closure body leaves early (return / ?)")
+        s0 = self._stmt_start(bo + h.start())
+        var = self.text[s0:bo + h.start()].strip()
+        semi = self.m.find(";", close)
+        if not re.match(r"[A-Za-z_][A-Za-z0-9_.]*$", var) or self.text[close + 1:semi].strip() or not re.match(r"[A-Za-z_]\w*$", p_):
+            raise Undecided("R3 retain-stmt: statement shape not recognised at %s:%d" % (self.relpath, self.line_of(s0)))
+        self.rewrite(s0, bs, "{ let mut vx_it = vx_into_iter(vx_take_vec(&mut %s));/*@pre*/\n    loop\n    /*@loop*/\n    {\n      let Some(vx_x) = vx_it.next() else { break; };/*@body*/\n      let vx_keep = { let %s = &vx_x; " % (var, p_), "R3-retain")
+        self.rewrite(be, semi + 1, " };\n      if vx_keep { %s.push(vx_x); }/*@tail*/\n    } }" % var, "R3-retain")
+
     def r3_map_fold_expr(self, fn, k):
         """tail expression `RECV.iter().map(|P| BODY).fold(INIT, |ACC, CUR| BODY2)` (no early exits in the bodies)  ==>
         { let mut ACC = INIT; let mut vx_i = 0; while vx_i < RECV.len() { let P = &RECV[vx_i]; let CUR = BODY; ACC = BODY2; vx_i += 1; } ACC }
